@@ -49,14 +49,39 @@ def table_case(args):
     return out
 
 
+CASE_TIMEOUT_S = float(os.environ.get("VERIF_CASE_TIMEOUT_S", "90"))
+
+
+class _CaseTimeout(BaseException):
+    pass
+
+
+def _guarded(args):
+    """one case under a wall-clock watchdog: a call into the package that does not come back (solve() / batt_life() must
+    terminate) is reported as a failure of the case instead of hanging the check"""
+    import signal
+    fn, job = args
+    def on_alarm(signum, frame): raise _CaseTimeout()
+    old = signal.signal(signal.SIGALRM, on_alarm)
+    signal.setitimer(signal.ITIMER_REAL, CASE_TIMEOUT_S)
+    try:
+        return fn(job)
+    except _CaseTimeout:
+        return {"hash": _hash(["timeout", fn.__name__, job]), "nontrivial": True, "sample": None, "outcome": "timeout",
+                "failures": [{"key": "case.timeout", "text": "%s%r: a call into the package did not return within %g s (solve() and batt_life() must terminate)" % (fn.__name__, tuple(job) if isinstance(job, (list, tuple)) else job, CASE_TIMEOUT_S), "props": ["C03", "C18"]}]}
+    finally:
+        signal.setitimer(signal.ITIMER_REAL, 0)
+        signal.signal(signal.SIGALRM, old)
+
+
 def run_pool(fn, jobs, nproc=None):
     nproc = nproc or NPROC
     if len(jobs) < 4 or nproc == 1:
-        res = [fn(j) for j in jobs]
+        res = [_guarded((fn, j)) for j in jobs]
     else:
         ctx = mp.get_context("fork")
         with ctx.Pool(nproc) as pool:
-            res = pool.map(fn, jobs, chunksize=max(1, len(jobs) // (nproc * 4)))
+            res = pool.map(_guarded, [(fn, j) for j in jobs], chunksize=max(1, len(jobs) // (nproc * 4)))
     for r, j in zip(res, jobs):
         for f in r.get("failures", []):
             f.setdefault("case", [fn.__module__, fn.__name__, list(j) if isinstance(j, (tuple, list)) else j])      # replayable: same function, same arguments
